@@ -254,18 +254,41 @@ def validate_trace(module, cfg, events, *, workdir, nshards=NSHARDS, timeout=900
     consume every event is a tool error.
     """
     out = TraceOutcome()
-    out.expected = len(events)
-    # per-action coverage of the trace spec = events consumed per kind (TLC's own -coverage
-    # instrumentation makes deep recursive evaluation orders of magnitude slower)
-    for e in events:
-        out.coverage[e.get("ev", "?")] = out.coverage.get(e.get("ev", "?"), 0) + 1
-    shards = shard(events, nshards, group_key)
     os.makedirs(workdir, exist_ok=True)
+    if isinstance(events, str):
+        # a FILE of events (large traces): its lines are dealt round robin into shard files without being parsed here
+        tag = os.path.basename(events).replace(".", "_")
+        paths = [os.path.join(workdir, "trace_%s_%s_%02d.ndjson" % (module, tag, i)) for i in range(nshards)]
+        handles = [open(q, "w") for q in paths]
+        counts = [0] * nshards
+        with open(events) as f:
+            for k, line in enumerate(f):
+                if not line.strip():
+                    continue
+                m = re.search(r'"ev":\s*"([A-Za-z]+)"', line)
+                ev = m.group(1) if m else "?"
+                out.coverage[ev] = out.coverage.get(ev, 0) + 1
+                handles[k % nshards].write(line if line.endswith("\n") else line + "\n")
+                counts[k % nshards] += 1
+        for h in handles:
+            h.close()
+        shards = [(q, n) for q, n in zip(paths, counts) if n]
+        out.expected = sum(counts)
+    else:
+        out.expected = len(events)
+        # per-action coverage of the trace spec = events consumed per kind (TLC's own -coverage
+        # instrumentation makes deep recursive evaluation orders of magnitude slower)
+        for e in events:
+            out.coverage[e.get("ev", "?")] = out.coverage.get(e.get("ev", "?"), 0) + 1
+        shards = shard(events, nshards, group_key)
 
     def one(i_sh):
         i, sh = i_sh
-        path = os.path.join(workdir, "trace_%s_%02d.ndjson" % (module, i))
-        write_ndjson(path, sh)
+        if isinstance(sh, tuple):
+            path, sh = sh[0], range(sh[1])
+        else:
+            path = os.path.join(workdir, "trace_%s_%02d.ndjson" % (module, i))
+            write_ndjson(path, sh)
         env = {"TRACE": path}
         if extra_env:
             env.update(extra_env)
